@@ -1040,9 +1040,9 @@ namespace Pistache::Http::Experimental
 
         if (conn == nullptr)
         {
-            return Async::Promise<Response>([this, resource = std::move(resource),
-                                             request](Async::Resolver& resolve,
-                                                      Async::Rejection& reject) {
+            auto res = Async::Promise<Response>([this, resource = std::move(resource),
+                                                 request](Async::Resolver& resolve,
+                                                          Async::Rejection& reject) {
                 Guard guard(queuesLock);
 
                 auto data = std::make_shared<Connection::RequestData>(
@@ -1051,6 +1051,11 @@ namespace Pistache::Http::Experimental
                 if (!queue.enqueue(data))
                     data->reject(std::runtime_error("Queue is full"));
             });
+            // a connection may have been released between the failed pick and the
+            // enqueue; its hand-over then found the queue empty and nothing else
+            // would ever look at this request again
+            processRequestQueue();
+            return res;
         }
         else
         {
